@@ -64,6 +64,10 @@ class EncModel:
         for alg, kind in (("PBES2-HS256+A128KW", "oct20"), ("A256GCMKW", "oct32"), ("ECDH-ES+A128KW", "X25519"), ("A128KW", "oct16")):
             for form in ("flattened", "general"):
                 menu.append(("no-header-argument:" + alg, kind, "A256GCM", form, "counter"))
+        # a caller that asks for a high PBES2 iteration count with every message, and a shared key that carries a kid
+        menu.append(("caller-p2c-120000:PBES2-HS256+A128KW", "oct20", "A256GCM", "compact", "counter"))
+        for form in ("compact", "general"):
+            menu.append(("kid-bearing-key:A256GCMKW", "oct32", "A256GCM", form, "counter"))
         # one message object that the application keeps: for every further message it sets the plaintext, a fresh header and the recipient again
         for alg, kind in (("ECDH-ES", "P-256"), ("ECDH-ES+A128KW", "X25519"), ("A256GCMKW", "oct32"), ("PBES2-HS256+A128KW", "oct20")):
             for form in ("flattened", "general"):
@@ -98,7 +102,15 @@ class EncModel:
         start = seam.begin_call(f"call{st['n']}")
         relay_iv = None
         try:
-            if alg.startswith("no-header-argument:"):
+            if alg.startswith("caller-p2c-120000:"):
+                alg = alg.split(":", 1)[1]
+                r = scen.jwe_encrypt(form, {"alg": alg, "enc": enc, "p2c": 120000}, b"plaintext", key, None, registry=st["registry"], aad=None)
+            elif alg.startswith("kid-bearing-key:"):
+                alg = alg.split(":", 1)[1]
+                if "kid-key" not in st["kept"]:
+                    st["kept"]["kid-key"] = A.jkey({**jwk, "kid": "shared-key-1"}, "dict")
+                r = scen.jwe_encrypt(form, {"alg": alg, "enc": enc}, b"plaintext", st["kept"]["kid-key"], None, registry=st["registry"], aad=None)
+            elif alg.startswith("no-header-argument:"):
                 alg = alg.split(":", 1)[1]
 
                 def bare():
@@ -173,6 +185,9 @@ class EncModel:
             if mode == "counter":
                 if (name, value) in st["outputs"] or any(value == v for (_, v) in st["outputs"]):
                     out["viol"].append((f"{name} repeats a value that an earlier call of this history already used", f"{alg} {enc} {form}: {value.hex()[:40]}"))
+                elif len(value) >= 12 and any(n2 == name and len(v) == len(value) and (v[:4] == value[:4] or v[-4:] == value[-4:]) for (n2, v) in st["outputs"]):
+                    # two values of one kind that agree in a 32-bit field: a fixed field, not 2^-32 luck (the generator's answers are fixed per history)
+                    out["viol"].append((f"{name} shares a 32-bit field with the {name} of an earlier call (fixed bits)", f"{alg} {enc} {form}: {value.hex()}"))
                 elif not traced and any(value in d for d in earlier) and any(value in o for (_, o) in st["outputs"]):
                     out["viol"].append((f"{name} reuses octets of an earlier call", f"{alg} {enc}"))
                 st["outputs"].append((name, value))
